@@ -158,7 +158,7 @@ R8TXT = {
  "C04": " Eighth round: many-keys history of join / rejoin / join-accept MICs; six-mask CFLists.",
  "C05": " Eighth round: many-sessions history (1024 / 32768 devices, frames of a batch of up to 700 devices all sent before the first is received); tamper walks over frames up to the 255-byte maximum.",
  "C06": " Eighth round: the registry part starts from the reset registry and judges the proprietary range 0x80..0xFF too.",
- "C07": " Eighth round: every registered size 1..300 framed as FOpts and as a port-0 payload; one MACCommand value used twice over all (direction, CID) pairs.",
+ "C07": " Eighth round: every registered size 1..300 framed as FOpts and as a port-0 payload; one MACCommand value used twice over all (direction, CID) pairs. Ninth round: a refused encoding (one command encodes, the next is out of range) before a valid sequence, over every first command.",
  "C09": " Eighth round: application-layer decoders on every length 41..512 x leading CID x 3 fillers (several hundred commands).",
  "C10": " Eighth round: reuse histories also with the caller setting every exported scalar between the decodes; MACCommand reuse across directions.",
  "C13": " Eighth round: 40 additions of each kind, default channels read through the accessors after each.",
@@ -170,6 +170,23 @@ R8TXT = {
  "C20": " Eighth round: durations over the whole int64 range (+-2^k and neighbours, the ends, around the Unix-nanosecond limit).",
 }
 for k, t in R8TXT.items():
+    lv, eng, tech, text, note = checks[k]
+    checks[k] = (lv, eng, tech, text + t, note)
+
+R9TXT = {
+ "C01": " Ninth round: a proprietary CID registered only after frames carrying it were decoded; refused frames whose first commands encode.",
+ "C04": " Ninth round: valid(key A), refused(key X), valid(key X) over 4 kinds of refusal x encrypt/decrypt x CFList.",
+ "C06": " Ninth round: every payload byte string also through MACCommand.UnmarshalBinary (same acceptance, same value).",
+ "C09": " Ninth round: every single-position replacement / insertion over a 16-symbol alphabet in 8 well-formed seed texts through every text decoder and as JSON members.",
+ "C12": " Ninth round: every configuration built 64 times, snapshots compared (construction stability).",
+ "C13": " Ninth round: construction stability; RX1 accessor results for every uplink index -2..17 x offset -1..8.",
+ "C14": " Ninth round: construction stability; an addition the band may refuse (inverted DR range) in the explored histories - a refused call changes nothing.",
+ "C15": " Ninth round: construction stability; a fifth AddChannel kind (inverted DR range, accepted or refused as the band chooses).",
+ "C16": " Ninth round: the device table changes between requests: every sequence of <= 4 steps over {provision, remove, three request kinds, bad MIC}.",
+ "C17": " Ninth round: a refused Unwrap leaves the envelope unchanged and usable.",
+ "C19": " Ninth round: Encode(w1), refused Encode (floor = w2 / size 0 / negative), Encode(w2) over 8 x 8 fragment counts.",
+}
+for k, t in R9TXT.items():
     lv, eng, tech, text, note = checks[k]
     checks[k] = (lv, eng, tech, text + t, note)
 
